@@ -154,6 +154,29 @@ reg("C11", "exploration",
     "transformation entries are elementary functions, each exercised by several lattice points.",
     "DESIGN.md 3/C11")
 
+reg("C12", "exploration",
+    "exhaustive enumeration of system x operator x component count x slot x field basis, compared "
+    "with operators derived independently by the chain rule",
+    "Gradient, divergence and curl are first-order linear differential operators, determined by "
+    "their action on {1, q1, q2, q3} in each component slot; the check runs the real operators on "
+    "that basis (plus products, a trigonometric field and generic undefined functions that guard "
+    "the premise) for every component count 0..3 and compares with the Cartesian operators pulled "
+    "back through the coordinate map and projected on the local frame; curl grad = 0 and div curl "
+    "= 0 are evaluated on generic functions.",
+    "Comparison at 2-3 lattice points per system with derivative atoms treated as independent "
+    "numbers; spherical polar angle in (0, pi).", "DESIGN.md 3/C12")
+
+reg("C13", "exploration",
+    "exhaustive enumeration of a monomial field basis x region alphabet x reparametrisation x "
+    "orientation; the library's two ways of computing each integral compared with each other and "
+    "with own closed forms",
+    "The five functionals are linear in the field, so the monomial basis per component slot "
+    "decides all polynomial fields of the bounded degree (2 quick, 3 thorough); regions: circle "
+    "(two speeds, both orientations), ellipse, rectangle as four segments, paraboloid cap, box "
+    "with six faces; results must be free of coordinate variables and parameters.",
+    "sympy.integrate / simplify trusted for the closed forms; trigonometric fields only on "
+    "rectangle and box where the integrals are elementary.", "DESIGN.md 3/C13")
+
 
 def build() -> dict:
     props = [json.loads(l)["id"] for l in open(os.path.join(ROOT, "properties.jsonl"))]
